@@ -5,6 +5,16 @@ Writes (from the CURRENT source under core.REPO, i.e. /repo or $SNOW_REPO)
   lean/SnowModel/Gen/Evap.lean     <- utils.vapour_pressure_liquid / _solid / vapour_flux
   lean/SnowModel/Gen/Derived.lean  <- constants.calculateDerived (everything after `_loadConfig`)
 
+and, in FORMULA EXTRACTION mode (`translate_formulas`, driven by harness/gentie.py),
+
+  lean/SnowModel/Gen/Formulas0D.lean  <- single assignments of Snowing._run_0D
+  lean/SnowModel/Gen/GenFlake.lean    <- single assignments of Snowflake.run
+  lean/SnowModel/Gen/Formulas1D.lean  <- single assignments of Snowing._run_1D
+
+one Lean definition per targeted assignment (target text + occurrence), parameters = the free
+names of the right-hand side, subscripts/attributes as opaque scalar parameters (see `FormulaTr`);
+lean/SnowProofs/Props/GenTie/*.lean proves each equal to the formula of the hand-written model.
+
 The accepted language is deliberately tiny.  Anything outside it raises
 `TranslatorError` naming the offending node: a broken tie, never a silent skip.
 
@@ -774,6 +784,248 @@ class Derived:
 
 def translate_derived(src: str, fname="constants.py") -> str:
     return Derived(src, fname).run()
+
+
+# ---------------------------------------------------------------------------
+# formula extraction: single assignments inside the run loops
+# ---------------------------------------------------------------------------
+class Formula:
+    """one target: the `occ`-th assignment (source order, 1-based) whose target reads `target`
+    (as printed by `ast.unparse`, e.g. `T_new`, `sigma_k[solidMask]`, `self._stats['t_sol']`)
+    inside `func` (`Class.method` or `function`); emitted as the Lean definition `name`."""
+
+    def __init__(self, name, target, occ=1):
+        self.name, self.target, self.occ = name, target, occ
+
+
+def _find_func(tree, qual, fname):
+    parts = qual.split(".")
+    body = tree.body
+    node = None
+    for i, part in enumerate(parts):
+        kinds = (ast.FunctionDef,) if i == len(parts) - 1 else (ast.ClassDef,)
+        found = [n for n in body if isinstance(n, kinds) and n.name == part]
+        if len(found) != 1:
+            raise TranslatorError(f"{fname}: expected exactly one definition of {'.'.join(parts[:i + 1])}, "
+                                  f"found {len(found)}")
+        node = found[0]
+        body = node.body
+    return node
+
+
+def _assignments(stmts, out):
+    """every (target text, value node, statement) in source order; compound statements are entered,
+    nested functions/classes are not"""
+    for st in stmts:
+        if isinstance(st, ast.Assign):
+            for t in st.targets:
+                out.append((ast.unparse(t), st.value, st, None))
+        elif isinstance(st, ast.AugAssign):
+            out.append((ast.unparse(st.target), st.value, st, st.op))
+        elif isinstance(st, ast.AnnAssign) and st.value is not None:
+            out.append((ast.unparse(st.target), st.value, st, None))
+        elif isinstance(st, (ast.For, ast.While)):
+            _assignments(st.body, out)
+            _assignments(st.orelse, out)
+        elif isinstance(st, ast.If):
+            _assignments(st.body, out)
+            _assignments(st.orelse, out)
+        elif isinstance(st, ast.With):
+            _assignments(st.body, out)
+        elif isinstance(st, ast.Try):
+            _assignments(st.body, out)
+            for h in st.handlers:
+                _assignments(h.body, out)
+            _assignments(st.orelse, out)
+            _assignments(st.finalbody, out)
+    return out
+
+
+class FormulaTr:
+    """expression -> Lean term whose parameters are the free names of the expression.
+
+    names                      -> parameters (order of first appearance)
+    subscripts / attributes    -> opaque scalar parameters named after their text
+                                  (`T_k[1:Nz - 1]` -> `T_k_1_Nz_m_1`, `self.dt` -> `self_dt`); the formula is
+                                  meant per node / per vial.  They must not contain calls.
+    int literals               -> `Num.zero`, `Num.one`, `Num.ofNat' n`, `Num.ofInt (-n)`
+    float literals             -> `Num.lit m k` with the digits of the literal text (`273.15` -> `lit 27315 2`)
+    + - * /  unary minus       -> the operations of `Num` (`/` is the field division: numpy semantics)
+    e ** 2, e ** -1            -> `e * e`, `Num.one / e` (what numpy computes for these exponents)
+    e ** x (anything else)     -> `Transc.pow e x`
+    np.exp/log/sqrt/tanh, np.pi
+    anything else              -> TranslatorError
+    """
+
+    def __init__(self, src, fname, imports):
+        self.src, self.fname, self.imp = src, fname, imports
+        self.params = {}   # key (python text) -> lean name
+        self.needs_pi = False
+
+    def bad(self, node, why):
+        _bad(node, self.fname, why)
+
+    def param(self, key, base):
+        if key in self.params:
+            return self.params[key]
+        nm = lean_name(base)
+        used = set(self.params.values())
+        while nm in used:
+            nm = nm + "'"
+        self.params[key] = nm
+        return nm
+
+    @staticmethod
+    def atom_name(text):
+        t = text.replace("-", "m").replace("'", "").replace('"', "")
+        t = re.sub(r"[^A-Za-z0-9_]", "_", t)
+        t = re.sub(r"_+", "_", t).strip("_")
+        if not t or not re.match(r"[A-Za-z_]", t):
+            t = "x_" + t
+        return t
+
+    def int_lit(self, v):
+        if v == 0:
+            return "Num.zero"
+        if v == 1:
+            return "Num.one"
+        if v > 0:
+            return f"(Num.ofNat' {v})"
+        return f"(Num.ofInt ({v}))"
+
+    def lit(self, node, neg=False):
+        v = node.value
+        if isinstance(v, bool) or not isinstance(v, (int, float)):
+            self.bad(node, "only decimal int/float literals are translated")
+        text = ast.get_source_segment(self.src, node)
+        if text is None or not _LIT.fullmatch(text):
+            self.bad(node, f"literal text {text!r} is not a plain decimal literal")
+        t = text.replace("_", "")
+        if isinstance(v, int):
+            if int(t) != v:
+                self.bad(node, "integer literal text and value differ")
+            return self.int_lit(-v if neg else v)
+        q = Fraction(t)
+        if float(q) != v:
+            self.bad(node, "float literal text and value differ")
+        mant, _, ex = t.lower().partition("e")
+        ip, _, fp = mant.partition(".")
+        k = len(fp) - (int(ex) if ex else 0)
+        m = int((ip or "0") + fp)
+        if k < 0:
+            m, k = m * 10 ** (-k), 0
+        if Fraction(m, 10 ** k) != q or k > 400:
+            self.bad(node, "literal not understood")
+        if neg:
+            m = -m
+        return f"(Num.lit {m} {k})" if m >= 0 else f"(Num.lit ({m}) {k})"
+
+    def is_np(self, n):
+        return isinstance(n, ast.Name) and n.id in self.imp.np_alias
+
+    def expr(self, n):
+        if isinstance(n, ast.Constant):
+            return self.lit(n)
+        if isinstance(n, ast.Name):
+            if not isinstance(n.ctx, ast.Load):
+                self.bad(n, "name not in load context")
+            if n.id in self.imp.pi_names:
+                self.needs_pi = True
+                return "HasPi.pi"
+            if n.id in self.imp.np_alias:
+                self.bad(n, "the numpy module used as a value")
+            return self.param(n.id, n.id)
+        if isinstance(n, (ast.Subscript, ast.Attribute)):
+            if isinstance(n, ast.Attribute) and self.is_np(n.value):
+                if n.attr == "pi":
+                    self.needs_pi = True
+                    return "HasPi.pi"
+                self.bad(n, "numpy attribute not understood (only np.pi)")
+            for sub in ast.walk(n):
+                if isinstance(sub, (ast.Call, ast.Lambda, ast.IfExp, ast.NamedExpr, ast.Await, ast.Yield,
+                                    ast.ListComp, ast.DictComp, ast.SetComp, ast.GeneratorExp)):
+                    self.bad(n, "subscript/attribute containing a call is not an opaque atom")
+            text = ast.unparse(n)
+            return self.param(text, self.atom_name(text))
+        if isinstance(n, ast.UnaryOp):
+            if isinstance(n.op, ast.USub):
+                if isinstance(n.operand, ast.Constant):
+                    return self.lit(n.operand, neg=True)
+                return f"(-{self.expr(n.operand)})"
+            self.bad(n, "unary operator not understood (only unary minus)")
+        if isinstance(n, ast.BinOp):
+            if type(n.op) in BINOPS:
+                return f"({self.expr(n.left)} {BINOPS[type(n.op)]} {self.expr(n.right)})"
+            if isinstance(n.op, ast.Div):
+                return f"({self.expr(n.left)} / {self.expr(n.right)})"
+            if isinstance(n.op, ast.Pow):
+                e = n.right
+                base = self.expr(n.left)
+                if isinstance(e, ast.Constant) and isinstance(e.value, int) and not isinstance(e.value, bool) \
+                        and e.value == 2:
+                    return f"({base} * {base})"
+                if isinstance(e, ast.UnaryOp) and isinstance(e.op, ast.USub) and isinstance(e.operand, ast.Constant) \
+                        and isinstance(e.operand.value, int) and not isinstance(e.operand.value, bool) \
+                        and e.operand.value == 1:
+                    return f"(Num.one / {base})"
+                return f"(Transc.pow {base} {self.expr(e)})"
+            self.bad(n, "binary operator not understood (only + - * / **)")
+        if isinstance(n, ast.Call):
+            f = n.func
+            if (isinstance(f, ast.Attribute) and self.is_np(f.value) and f.attr in NP_FUNCS and not n.keywords
+                    and len(n.args) == 1):
+                return f"({NP_FUNCS[f.attr]} {self.expr(n.args[0])})"
+            self.bad(n, "call not understood (only np.exp/log/sqrt/tanh with one argument)")
+        self.bad(n, "expression not understood")
+
+
+def translate_formulas(src: str, fname: str, func: str, specs, namespace: str, out_name: str) -> str:
+    tree = ast.parse(src)
+    imp = Imports(tree)
+    fd = _find_func(tree, func, fname)
+    assigns = _assignments(fd.body, [])
+    defs = []
+    any_pi = False
+    seen_names = set()
+    for sp in specs:
+        hits = [a for a in assigns if a[0] == sp.target]
+        if len(hits) < sp.occ:
+            raise TranslatorError(f"{fname}: {func} has {len(hits)} assignment(s) to `{sp.target}`, "
+                                  f"the tie needs #{sp.occ} (definition {sp.name})")
+        _, value, st, augop = hits[sp.occ - 1]
+        tr = FormulaTr(src, fname, imp)
+        if augop is not None:
+            # x op= e  is  x = x op (e)
+            if type(augop) in BINOPS:
+                sym = BINOPS[type(augop)]
+            elif isinstance(augop, ast.Div):
+                sym = "/"
+            else:
+                _bad(st, fname, "augmented assignment operator not understood")
+            lhs = tr.expr(ast.parse(sp.target, mode="eval").body)
+            code = f"({lhs} {sym} {tr.expr(value)})"
+        else:
+            code = tr.expr(value)
+        any_pi = any_pi or tr.needs_pi
+        if sp.name in seen_names:
+            raise TranslatorError(f"duplicate formula name {sp.name}")
+        seen_names.add(sp.name)
+        ps = list(tr.params.values())
+        binder = f" ({' '.join(ps)} : α)" if ps else ""
+        text = " ".join(ast.unparse(st).split()).replace("-/", "- /")
+        keys = ", ".join(f"`{k}`" for k in tr.params) or "none"
+        defs.append(
+            f"/-- `{func}`, assignment #{sp.occ} to `{sp.target}`:\n    `{text}`\n    parameters: {keys} -/\n"
+            f"def {lean_name(sp.name)}{binder} : α :=\n  {code}\n")
+    head = (
+        f"/-\n  GENERATED by harness/translate.py (formula extraction) from src/ethz_snow/{fname}, `{func}` - DO NOT EDIT.\n"
+        "  Regenerated on every run of the property checks that own the hand-written model of this\n"
+        "  function; SnowProofs/Props/GenTie/*.lean proves each definition below equal to the\n"
+        "  corresponding formula of the hand model, so an edited formula in the source breaks a proof.\n"
+        "  Names are parameters; subscripts/attributes are opaque scalar parameters (per node / per vial).\n-/\n"
+        "import SnowModel.Num\nimport SnowModel.GenSupport\n\n"
+        f"namespace {namespace}\nvariable {{α : Type}} [Transc α]" + (" [HasPi α]" if any_pi else "") + "\n\n")
+    return head + "\n".join(defs) + f"\nend {namespace}\n"
 
 
 # ---------------------------------------------------------------------------
